@@ -110,6 +110,14 @@ def build(nl, name='top'):
                         l = Line(c, sub, reader_pin(r))
                         b.rline[r] = l
                         lines.append(l)
+            elif mode == 'L' and real_readers:
+                # long chain: stem fork -> fork a -> fork b; the first reader hangs on the deepest fork, the second on the middle one
+                fa = Node(c, f'{src}~a'); lines.append(Line(c, fork, fa))
+                fb = Node(c, f'{src}~a~b'); lines.append(Line(c, fa, fb))
+                for j, r in enumerate(real_readers):
+                    l = Line(c, [fb, fa, fork][min(j, 2)], reader_pin(r))
+                    b.rline[r] = l
+                    lines.append(l)
             else:
                 for r in real_readers:
                     l = Line(c, fork, reader_pin(r))
